@@ -148,7 +148,7 @@ def add_boundary_result(cfg, rng, p=0.9):
         rng.choice(sts)["ret"] = ["big", ck - 2 + rng.choice([-1, 0, 0, 1])]
 
 
-def add_flaky_serdes(cfg, rng, p):
+def add_flaky_serdes(cfg, rng, p, inv_err_p=0.0):
     """User-supplied serialisers are user code too: with probability p, 1-3 step / wait_for_condition / child / callback
     statements get a custom SerDes (around an 'external store') whose k-th serialize or deserialize call fails."""
     if rng.random() >= p:
@@ -175,6 +175,8 @@ def add_flaky_serdes(cfg, rng, p):
             # the k-th decode of the recorded outcome of the already completed operation fails (a replay that cannot read
             # what an earlier invocation stored)
             st["fserdes"] = {"ser": [], "de": [], "det": rng.choice([[1], [1], [2], [1, 2]])}
+        if inv_err_p and rng.random() < inv_err_p:
+            st["fserdes"]["cls"] = "InvocationError"
     # the SerDes of a map/parallel batch result fails to serialise: the map/parallel itself completes with FAIL
     for st in oracles.statements(cfg["program"]).values():
         if st["op"] in ("parallel", "map") and rng.random() < 0.3:
@@ -709,7 +711,27 @@ class C11(Check):
     base_profile = {"amo_p": 0.2, "fault_kinds": ["crash-api", "crash-fn", "crash-step", "spurious", "apierr-retry", "apierr", "apierr"]}
 
     def tune(self, cfg, prof, rng):
-        add_flaky_serdes(cfg, rng, 0.35)
+        # in a third of those the failing store client raises InvocationError ("retry the invocation"): the lifecycle
+        # automaton does not care which class it is, the SDK's handlers do
+        add_flaky_serdes(cfg, rng, 0.35, inv_err_p=0.35)
+        if rng.random() < 0.1:
+            # template: a child context whose result is summarised (scaled checkpoint limit) is traversed again in the next
+            # invocation, and there the store client of a step inside it fails the decode of the recorded result - with
+            # InvocationError in half of the cases. Nothing may be sent for the context, which the backend holds as SUCCEEDED.
+            body = cfg["program"]["body"]
+            fs = {"ser": [], "de": [], "det": rng.choice([[1], [1], [2], [1, 2]])}
+            if rng.random() < 0.5:
+                fs["cls"] = "InvocationError"
+            child = {"op": "child", "body": [{"op": "step"}, {"op": "step", "fserdes": fs}], "ret": ["big", rng.choice([150, 400])]}
+            if rng.random() < 0.5:
+                # ... or the body's own code raises while the SDK runs it again to rebuild the summarised result
+                child = {"op": "child", "body": [{"op": "step"}, {"op": "step"}], "ret": ["big", rng.choice([150, 400])],
+                         "rebuild_raise": {"cls": rng.choice(["InvocationError", "InvocationError", "RuntimeError", "ExecutionError"]),
+                                           "n": rng.choice([[1], [1], [2], [1, 2]])}}
+            body.insert(rng.randrange(len(body) + 1), child)
+            body.append({"op": "step", "fn": {"attempts": [{"do": "raise", "cls": "ValueError", "msg": "transient"}, {"do": "ret", "v": ["int", 1]}]},
+                         "retry": {"kind": "script", "decisions": [{"retry": 2}, {"no": 1}]}})
+            cfg["limits"] = {"ckpt": rng.choice([40, 100]), "resp": 6 * 1024 * 1024 - 50}
 
     def oracle(self, ix, cfg, golden):
         return oracles.check_c11(ix)
